@@ -411,8 +411,27 @@ class Driver:
             s.done = "break"
             return [s]
         if isinstance(st, ast.For):
-            if _effect_free(st.body) or _flush_loop(st, s):
+            # the loop BINDS its target(s): a name that is tracked already, or read after the loop, keeps the last element (or its
+            # old value when the sequence is empty) -- such a loop is not "without effect"
+            tnames = {n.id for n in ast.walk(st.target) if isinstance(n, ast.Name)}
+            inside = {id(n) for n in ast.walk(st)}
+            binds = any(t in s.env for t in tnames) or any(isinstance(n, ast.Name) and n.id in tnames and isinstance(n.ctx, ast.Load) and id(n) not in inside and getattr(n, "lineno", 0) > st.lineno for n in ast.walk(func.node))
+            if not binds and (_effect_free(st.body) or _flush_loop(st, s)):
                 return [s]
+            if (not st.orelse and isinstance(st.target, ast.Tuple) and len(st.target.elts) == 2 and all(isinstance(e, ast.Name) for e in st.target.elts)
+                    and isinstance(st.iter, ast.Call) and isinstance(st.iter.func, ast.Name) and st.iter.func.id == "enumerate" and len(st.iter.args) == 1
+                    and isinstance(st.iter.args[0], ast.Name) and not st.iter.keywords):
+                # for I, T in enumerate(SEQ): BODY  ==  i = 0 ; while i < len(SEQ): I = i ; T = SEQ[i] ; i += 1 ; BODY
+                self._forvar = getattr(self, "_forvar", 0) + 1
+                iv = "__for%d" % self._forvar
+                seq = st.iter.args[0].id
+                src = "%s = 0\nwhile %s < len(%s):\n    %s = %s\n    %s = %s[%s]\n    %s += 1\n    pass\n" % (iv, iv, seq, st.target.elts[0].id, iv, st.target.elts[1].id, seq, iv, iv)
+                mod = ast.parse(src)
+                for n in ast.walk(mod):
+                    ast.copy_location(n, st)
+                wl = mod.body[1]
+                wl.body = wl.body[:-1] + list(st.body)
+                return self.block(mod.body, [s], func)
             if not st.orelse and isinstance(st.target, ast.Name) and isinstance(st.iter, ast.Name):
                 # for T in SEQ: BODY   ==   i = 0 ; while i < len(SEQ): T = SEQ[i] ; i += 1 ; BODY    (break leaves the loop)
                 self._forvar = getattr(self, "_forvar", 0) + 1
